@@ -38,6 +38,8 @@ ASSUMPTIONS = [
 ASSIGNMENTS = {
     "names": [("r", "r.A", (1, 0)), ("r", "r.B", (1, 0)), ("r", "r.s.C", (1, 0))],
     "versions": [("r", "r.A", (0, 1)), ("r", "r.A", (0, 2)), ("r", "r.A", (1, 0))],
+    # version numbers that read alike once their digits are run together
+    "digit-ambiguous-versions": [("r", "r.A", (0, 110)), ("r", "r.A", (0, 11)), ("r", "r.B", (11, 0)), ("r", "r.B", (1, 10))],
     "cross-root": [("r", "r.B", (1, 0)), ("r", "r.A", (1, 0)), ("q", "q.D", (1, 0))],
     "nested-versions": [("r", "r.s.C", (1, 0)), ("r", "r.s.C", (2, 0)), ("r", "r.s.E", (1, 0))],
     "four": [("r", "r.A", (0, 1)), ("r", "r.A", (0, 2)), ("r", "r.s.C", (1, 0)), ("q", "q.D", (1, 0))],
@@ -103,6 +105,7 @@ def plan(tier):
     shards = []
     for a in FROM_NODE:
         shards.append({"kind": "graphs-from-last", "assignment": a, "n": len(ASSIGNMENTS[a])})
+    shards.append({"kind": "graphs-pairs", "assignment": "digit-ambiguous-versions", "n": 4})
     full = ("names", "versions", "cross-root", "twins") if tier == "quick" else ("names", "versions", "cross-root", "nested-versions", "twins", "twins-lookup")
     for a in full:
         for p in range(16):
@@ -128,6 +131,14 @@ def cases(shard, tier):
                     for op in ("rn", "rf"):
                         for first in ("dsdl-is-A", "twin-is-A"):
                             yield {"kind": "file-twins", "twin": twin, "where": where, "referenced": referenced, "op": op, "first": first}
+        return
+    if shard["kind"] == "graphs-pairs":
+        # every set of <= 2 edges over the nodes (no self loops)
+        n = shard["n"]
+        pairs_ = [(a, b) for a in range(n) for b in range(n) if a != b]
+        for k in (1, 2):
+            for edges in itertools.combinations(pairs_, k):
+                yield {"kind": "graph", "assignment": shard["assignment"], "n": n, "edges": [list(e) for e in edges], "spelling": "abs"}
         return
     if shard["kind"] == "graphs-from-last":
         n = shard["n"]
